@@ -257,7 +257,12 @@ Value MacroProcessor::InternalResolveMacros(const String& str, const ResolverLis
 		bool recursive_macro;
 		bool found;
 
-		if (useResolvedMacros) {
+		/* $$ is an escape sequence for $. */
+		if (name.IsEmpty()) {
+			recursive_macro = false;
+			resolved_macro = "$";
+			found = true;
+		} else if (useResolvedMacros) {
 			recursive_macro = false;
 			found = resolvedMacros->Contains(name);
 
@@ -265,12 +270,6 @@ Value MacroProcessor::InternalResolveMacros(const String& str, const ResolverLis
 				resolved_macro = resolvedMacros->Get(name);
 		} else
 			found = ResolveMacro(name, resolvers, cr, &resolved_macro, &recursive_macro);
-
-		/* $$ is an escape sequence for $. */
-		if (name.IsEmpty()) {
-			resolved_macro = "$";
-			found = true;
-		}
 
 		if (resolved_macro.IsObjectType<Function>()) {
 			resolved_macro = EvaluateFunction(resolved_macro, resolvers, cr, escapeFn,
